@@ -1,6 +1,7 @@
 extern crate iceoryx2_bb_loggers;
 mod common;
 mod c01_pubsub;
+mod c05_eventports;
 mod c05_eventseq;
 mod c08_zcc;
 mod c11_reqres;
@@ -67,6 +68,7 @@ fn main() {
         "resize" => go!(c15_resize::generate, || c15_resize::ResizeComp::new()),
         "eventseq" => go!(c05_eventseq::generate, || c05_eventseq::EventSeqComp::new()),
         "blackboard" => go!(c12_blackboard::generate, || c12_blackboard::BlackboardComp::new()),
+        "eventports" => go!(c05_eventports::generate, || c05_eventports::EventPortsComp::new()),
         "alloc" => go!(c15_alloc::generate, || c15_alloc::AllocComp::new()),
         "names" => go!(c19_names::generate, || c19_names::NamesComp::new()),
         "vec" => go!(c16_vec::generate, || c16_vec::VecComp::new()),
